@@ -72,6 +72,18 @@ def handle : Handler := fun op args =>
       fun nm => match integrate2D idealI idealMC nm 0 (fun _ _ => 1) 0 1 0 1 with | .ok _ => "ok" | .error _ => "err"
   | "c13.fam3" => withArgs (do let nm ← tok; let _ ← pMany tok 20; pure nm) args
       fun nm => match integrate3D idealI idealMC nm 0 (fun _ _ _ => 1) 0 1 0 1 0 1 with | .ok _ => "ok" | .error _ => "err"
+  | "c13.seq" => withArgs (pList (do
+        let d ← pNat; let nm ← tok; let p ← pInt
+        if d = 1 then
+          let a ← pRat; let b ← pRat; let _ ← pMany tok 4
+          pure (Call.one nm p (fun _ => 1) a b)
+        else if d = 2 then
+          let x1 ← pRat; let x2 ← pRat; let y1 ← pRat; let y2 ← pRat; let _ ← pMany tok 8
+          pure (Call.two nm p (fun _ _ => 1) x1 x2 y1 y2)
+        else failure)) args
+      fun calls =>
+        -- outcome only: the process stops at the first call with an unknown method name
+        if (runSeq idealI idealMC calls).all (fun r => match r with | .ok _ => true | .error _ => false) then "ok" else "err"
   | "c13.default1" => some "ok"
   | "c13.sphdefault" => some "ok"
   | "c13.findeps" => withArgs (do let a ← pRat; let b ← pRat; let pr ← pRat; let c ← pRats; pure (a, b, pr, c)) args
